@@ -176,7 +176,7 @@ def run(ctx):
         rnd = random.Random(ctx.seed * 32452843 + 13)
         cases = [gen_case(rnd) for _ in range(ctx.pick(20000, 1500000))]
     lines = ["J2 %d %d %d %s" % (i, c, m.get("how", 0), enc_msg(m)) for i, (c, m) in enumerate(cases)]
-    results, crashes = fmtdrv.run_cases(ctx, "san", lines, chunk=500)
+    results, crashes = fmtdrv.run_cases(ctx, "san", lines, chunk=500, lags=fmtdrv.LAGS)
 
     def rep_of(c, m):
         mm = dict(m)
